@@ -274,7 +274,9 @@ Lemma setstate_getstate d : Forall wfh d -> NoDup d -> set_setstate (set_getstat
 Proof.
   induction d as [|n d IH]; intros W N; [reflexivity|].
   inversion W as [|? ? Wn Wd]; subst. inversion N as [|? ? Hn Nd]; subst.
-  cbn [set_getstate map set_setstate]. fold (set_getstate d). rewrite net_of_tuple_wf by apply Wn. cbn [bind].
+  cbn [set_getstate map set_setstate]. fold (set_getstate d).
+  assert (Hver: valid_ver (nver n) = true) by apply Wn. rewrite Hver.
+  rewrite net_of_tuple_wf by apply Wn. cbn [bind].
   rewrite (IH Wd Nd). cbn [bind]. rewrite dfromkeys_id; auto.
 Qed.
 
